@@ -134,7 +134,7 @@ def judge(contract, inputs):
     r0 = outcome(real, [real_arg(a) for a in raw])
     memo_bad = memo_mismatch(r0[1]) if r0[0] == "ret" and type(r0[1]).__name__ == "URL" and hasattr(r0[1], "_cache") else []
     r = norm_result(r0)
-    s = norm_result(outcome(contract.spec, [spec_arg(a) for a in raw]))
+    s = norm_result(outcome(contract.spec or contract.native_spec, [spec_arg(a) for a in raw]))
     if memo_bad:
         return {"real": show(r), "spec": show(s), "agrees": False, "in_pre": in_pre, "memo_mismatch": memo_bad}
     return {"real": show(r), "spec": show(s), "agrees": agrees(r, s), "in_pre": in_pre}
@@ -153,7 +153,7 @@ def alphabet_for(contract, seed_inputs):
         for ch in chars:
             if ch not in out:
                 out.append(ch)
-    for fn in (resolve(contract.qual), contract.spec):
+    for fn in (resolve(contract.qual), contract.spec or getattr(contract, 'native_spec', None)):
         try:
             tree = ast.parse(textwrap.dedent(inspect.getsource(fn)))
         except (OSError, TypeError, SyntaxError):
